@@ -451,7 +451,8 @@ func (c *Cache) GetVendorSpecs(vendor string) []*Spec {
 
 	_, _ = c.refreshIfRequired(false) // we record but ignore errors
 
-	return c.specs[vendor]
+	// The caller owns the slice it gets: hand out a copy, not our index.
+	return append([]*Spec(nil), c.specs[vendor]...)
 }
 
 // GetSpecErrors returns all errors encountered for the spec during the
@@ -478,7 +479,7 @@ func (c *Cache) GetErrors() map[string][]error {
 
 	errors := map[string][]error{}
 	for path, errs := range c.errors {
-		errors[path] = errs
+		errors[path] = append([]error(nil), errs...)
 	}
 	for path, err := range c.dirErrors {
 		errors[path] = []error{err}
